@@ -64,6 +64,30 @@ Proof.
   - destruct rdy, rs, ll, rr; cbn; reflexivity.
 Qed.
 
+(* one-way calls leave NOTHING behind, whatever goes wrong with them and however often request id 0 occurs: rejected while being
+   received (the caller's ABORT included: the id was never registered, so there is no table entry to retire), arguments not ready,
+   the method raising, a result that could not be serialized (it is never sent): no message, the table untouched, nothing swallowed,
+   the connection up.  No condition on d_answer: _callFinished returns before it looks at the result *)
+Theorem one_way_contained i s : cup s = true -> d_reqid (in_env i) = 0 ->
+  let s' := handle i s in
+  cup s' = true /\ sent s' = sent s /\ active s' = active s /\ swallowed s' = swallowed s.
+Proof.
+  intros U R. destruct s as [a sn u sw]. cbn in U. subst u.
+  destruct i as [abort e|e]; destruct e as [r sch rdy rs rok ans ll rr rn us ex]; cbn [in_env d_reqid] in R; subst r;
+    unfold handle, register, registers_reqid, delivery_chain, report_violation_prog, call_failed, callfailed_prog, call_finished, callfinished_prog.
+  - destruct abort; cbn; auto.
+  - destruct rdy, rs, ll, rr; cbn; auto.
+Qed.
+
+Example ex_one_way :
+  let x := {| e_type := [86]; e_str := Ok [109]; e_fallback := []; e_stack := []; e_parents := [] |} in
+  let mk rdy rs ans := {| d_reqid := 0; d_schema := true; d_ready := rdy; d_raises := rs; d_result_ok := false; d_answer := ans;
+                          d_log_local := true; d_repr_raises := true; d_render_raises := true; d_unsafe := true; d_exc := x |} in
+  let s0 := {| active := [4]; sent := [MAnswer 3]; cup := true; swallowed := 0 |} in
+  handle_all [InRejected true (mk true false SOk); InRejected false (mk true false SOk); InDelivered (mk false false SOk);
+              InDelivered (mk true true SOk); InDelivered (mk true false SCrash)] s0 = s0.
+Proof. vm_compute. reflexivity. Qed.
+
 (* ---- the case that used to break the statement (repaired in foolscap: the log entry is guarded): the local-failure log is on
    and the target (or an argument) cannot be formatted -- the error is sent all the same *)
 Theorem unrenderable_delivery_answered e s : cup s = true -> d_reqid e <> 0 -> d_answer e <> SCrash ->
@@ -177,4 +201,89 @@ Proof.
       by (intros; split; [exact H0|exact H]).
     repeat (apply Forall_cons || apply Forall_nil); try (apply D; discriminate); (split; [cbn; discriminate|exact I]). }
   split; [repeat constructor; cbn; intuition discriminate|]. split; vm_compute; reflexivity.
+Qed.
+
+(* ---- histories in which one-way calls (request id 0, any number of them) are mixed with ordinary calls *)
+Definition inbound_ok1 (i : inbound) : Prop := reqid_of i = 0 \/ inbound_ok i.
+
+Definition nonzero_ids (ins : list inbound) : list Z := filter (fun r => negb (r =? 0)) (map reqid_of ins).
+
+Lemma handle_one1 i s : cup s = true -> inbound_ok1 i ->
+  let s' := handle i s in
+  cup s' = true /\ swallowed s' = swallowed s /\
+  replies (reqid_of i) (sent s') = (replies (reqid_of i) (sent s) + expected_replies i)%nat /\
+  (forall r, r <> reqid_of i \/ reqid_of i = 0 -> replies r (sent s') = replies r (sent s)).
+Proof.
+  intros U [Z|K]; cbn zeta.
+  - destruct (one_way_contained i s U Z) as (C & M & _ & W). split; [exact C|]. split; [exact W|]. rewrite M. split.
+    + assert (E : expected_replies i = 0%nat).
+      { unfold reqid_of in Z. destruct i as [ab e|e]; cbn [in_env] in Z; unfold expected_replies; rewrite Z; cbn;
+          [rewrite orb_true_r|]; reflexivity. }
+      rewrite E. lia.
+    + reflexivity.
+  - destruct (handle_one i s U K) as (C & W & _ & R1 & O1). split; [exact C|]. split; [exact W|]. split; [exact R1|].
+    intros r [N|Z]; [apply O1; exact N|]. destruct K as [K _]. contradiction.
+Qed.
+
+Lemma nonzero_ids_cons i ins :
+  nonzero_ids (i :: ins) = if reqid_of i =? 0 then nonzero_ids ins else reqid_of i :: nonzero_ids ins.
+Proof. unfold nonzero_ids. cbn [map filter]. destruct (reqid_of i =? 0); reflexivity. Qed.
+
+Lemma in_nonzero_ids j ins : In j ins -> reqid_of j <> 0 -> In (reqid_of j) (nonzero_ids ins).
+Proof.
+  intros J N. unfold nonzero_ids. apply filter_In. split; [apply in_map; exact J|]. apply Z.eqb_neq in N. rewrite N. reflexivity.
+Qed.
+
+(* C10_every_call_answered_once_with_one_way: the statement of every_call_answered_once for histories in which any number of
+   one-way calls (all with request id 0) occur anywhere among the ordinary ones (distinct non-zero ids): every ordinary call gets
+   exactly its replies, every one-way call none, no message is ever addressed to request 0, nothing is swallowed, the connection
+   stays up *)
+Theorem every_call_answered_once_with_one_way ins : forall s, cup s = true -> Forall inbound_ok1 ins -> NoDup (nonzero_ids ins) ->
+  let s' := handle_all ins s in
+  cup s' = true /\ swallowed s' = swallowed s /\
+  (forall i, In i ins -> replies (reqid_of i) (sent s') = (replies (reqid_of i) (sent s) + expected_replies i)%nat) /\
+  (forall r, ~ In r (nonzero_ids ins) -> replies r (sent s') = replies r (sent s)).
+Proof.
+  induction ins as [|i ins IH]; intros s U F N; cbn zeta.
+  - cbn. repeat split; auto. intros i [].
+  - inversion F as [|? ? Fi Fr]; subst.
+    destruct (handle_one1 i s U Fi) as (U1 & W1 & R1 & O1).
+    assert (Nr : NoDup (nonzero_ids ins)).
+    { rewrite nonzero_ids_cons in N. destruct (reqid_of i =? 0); [exact N|]. inversion N; assumption. }
+    assert (Ni : reqid_of i <> 0 -> ~ In (reqid_of i) (nonzero_ids ins)).
+    { intros NZ. rewrite nonzero_ids_cons in N. apply Z.eqb_neq in NZ. rewrite NZ in N. inversion N; assumption. }
+    cbn [handle_all fold_left]. fold (handle_all ins (handle i s)).
+    destruct (IH (handle i s) U1 Fr Nr) as (U2 & W2 & R2 & O2).
+    split; [exact U2|]. split; [congruence|]. split.
+    + intros j [<-|J].
+      * rewrite O2; [exact R1|]. destruct (Z.eq_dec (reqid_of i) 0) as [Z|NZ]; [|exact (Ni NZ)].
+        rewrite Z. unfold nonzero_ids. intros X. apply filter_In in X. destruct X as [_ X]. discriminate X.
+      * rewrite (R2 j J). rewrite O1; [reflexivity|].
+        destruct (Z.eq_dec (reqid_of i) 0) as [Z|NZ]; [right; exact Z|left].
+        intros E. destruct (Z.eq_dec (reqid_of j) 0) as [Zj|NZj]; [congruence|].
+        apply (Ni NZ). rewrite <- E. apply in_nonzero_ids; assumption.
+    + intros r NI. rewrite nonzero_ids_cons in NI. rewrite O2.
+      * apply O1. destruct (Z.eqb_spec (reqid_of i) 0) as [Z|NZ]; [right; exact Z|left]. intros E. apply NI. left. congruence.
+      * destruct (reqid_of i =? 0); [exact NI|]. intros X. apply NI. right. exact X.
+Qed.
+
+(* non-vacuity: one-way calls of every kind (aborted by the caller, rejected by the callee, not ready, raising, fine) between
+   ordinary calls *)
+Example ex_history_one_way :
+  let x := {| e_type := [86]; e_str := Ok [109]; e_fallback := []; e_stack := []; e_parents := [] |} in
+  let mk r rdy rs sch rok ans := {| d_reqid := r; d_schema := sch; d_ready := rdy; d_raises := rs; d_result_ok := rok; d_answer := ans;
+                                    d_log_local := true; d_repr_raises := false; d_render_raises := true; d_unsafe := true; d_exc := x |} in
+  let ins := [InDelivered (mk 1 true false false true SOk); InRejected true (mk 0 true false false true SOk);
+              InRejected false (mk 2 true false false true SOk); InRejected false (mk 0 true false false true SOk);
+              InDelivered (mk 0 false false false true SOk); InDelivered (mk 3 true true true false SOk);
+              InDelivered (mk 0 true true false true SCrash); InRejected true (mk 5 true false false true SOk);
+              InDelivered (mk 0 true false false true SOk)] in
+  Forall inbound_ok1 ins /\ NoDup (nonzero_ids ins) /\
+  map (fun m => match m with MAnswer r => (0, r) | MAnswerAborted r => (1, r) | MError r _ => (2, r) end) (sent (handle_all ins cinit0))
+  = [(0, 1); (2, 2); (2, 3)] /\ active (handle_all ins cinit0) = [5].
+Proof.
+  cbn zeta. split.
+  { repeat (apply Forall_cons || apply Forall_nil);
+      first [left; reflexivity | right; split; [cbn; discriminate | first [exact I | cbn; discriminate]]]. }
+  split; [vm_compute; repeat constructor; cbn; intuition discriminate|]. split; vm_compute; reflexivity.
 Qed.
